@@ -401,7 +401,7 @@ async fn s_lists_and_content(h: &mut Host) -> Result<(), Fail> {
     for round in 0..2 {
         for sname in [&subs[0], &subs[1]] {
             let m = h.pull(sname, 10, true).await.map_err(setup("pull"))?;
-            if m.len() != 3 { return Err(f(if round == 0 { "C01" } else { "C04" }, format!("{}: {} of 3 messages delivered (round {})", sname, m.len(), round))); }
+            if m.len() != 3 { return Err(f(if round == 0 { "C01" } else { "C05" }, format!("{}: {} of 3 messages delivered (round {}: after a nack of all three)", sname, m.len(), round))); }
             for rm in m.iter() {
                 let pm = rm.message.as_ref().ok_or_else(|| f("C09", "delivery without message".into()))?;
                 let k = ids.iter().position(|i| *i == pm.message_id).ok_or_else(|| f("C09", format!("delivery carries message id {:?}, Publish returned {:?}", pm.message_id, ids)))?;
